@@ -262,6 +262,8 @@ def change_menu(mname, f, level):
             cf({'max_length': 30 if ml != 30 else 20})
             if level != 'lite':
                 cf({'max_length': 10 if ml != 10 else 20})
+                # the same change with the (unchanged) field type restated
+                cf({'max_length': 30 if ml != 30 else 20}, None, t)
         if t == 'Decimal':
             cf({'max_digits': 7, 'decimal_places': 3}
                if a.get('max_digits') != 7 else
